@@ -37,7 +37,13 @@ RULE = (
     "documented first match (cwd, ~/.torrentfile, ~/.config) resp. of the explicit path, and commands.find_config_file itself is called "
     "on all 8 presence combinations x {no, existing, missing --config-path}; (c) TorrentFile / TorrentFileV2 / TorrentFileHybrid / TorrentAssembler(**kwargs).write() with "
     "path= or content=, meta_version as str, int or omitted (class-specific creators), piece_length as str or int, announce as "
-    "list or (single URL) str.  Each result is decoded with the reference oracle's strict bencode decoder, 'creation date' (and "
+    "list or (single URL) str, and -- whenever out is set -- one more keyword route that gives the location to write(outfile=...) instead of the "
+    "constructor (file, directory form with trailing slash, relative, inside the content ...).  The CONTENT PATH is spelled differently "
+    "from route to route of one record (all three routes): absolute, with a trailing separator, with '//' or '/.' appended, relative "
+    "to the working directory (which has '..' segments), './relative', 'relative/', 'relative/.' ('.', './', './.' when the working "
+    "directory is the content; a single file takes the spellings without a trailing part); route 0 keeps the plain absolute "
+    "path, a content swallowed by a list-valued flag is never spelled plainly, and for meta-version 2 / 3 records with a list flag "
+    "one more swallowed route spells it with a trailing separator (aimed records make sure both versions occur).  Each result is decoded with the reference oracle's strict bencode decoder, 'creation date' (and "
     "nothing else) is dropped, and the check requires (1) every route byte-identical to the majority result, (2) every option "
     "in its documented field and no field present that no option asked for (announce -> announce + announce-list [[all]], "
     "web-seed -> url-list, http-seed -> httpseeds, private -> info.private = 1, source / comment -> info.source / info.comment "
@@ -121,9 +127,29 @@ from torrentfile import torrent
 sink = io.StringIO()
 with contextlib.redirect_stdout(sink):
     t = getattr(torrent, spec["cls"])(**spec["kwargs"])
-    out, _ = t.write()
+    out, _ = t.write(**spec.get("write", {}))
 print(out)
 """
+
+
+# how the user spells the content path (the same directory / file every time)
+CONTENT_SPELLINGS = ["absolute", "absolute/", "relative", "relative/", "./relative", "relative/.", "absolute/.", "absolute//"]
+SWALLOW_SPELLINGS = ["absolute/", "relative/", "./relative", "relative/.", "absolute/.", "relative", "absolute//"]
+
+
+def spell_content(content, cwd, spelling, single):
+    """`content` (absolute, or '.' when the working directory is the content directory) in the given spelling; a regular file
+       takes no trailing separator or '/.' (those spellings fall back to the form without it)"""
+    if not spelling or spelling == "absolute":
+        return content
+    if content == ".":
+        return {"absolute/": "./", "relative/": "./", "relative/.": "./.", "absolute/.": "./.", "absolute//": ".//"}.get(spelling, ".")
+    rel = os.path.relpath(content, cwd)
+    if single:
+        spelling = {"absolute/": "absolute", "absolute/.": "absolute", "absolute//": "absolute", "relative/": "relative",
+                    "relative/.": "./relative"}.get(spelling, spelling)
+    return {"absolute": content, "absolute/": content + "/", "relative": rel, "relative/": rel + "/", "./relative": "./" + rel,
+            "relative/.": rel + "/.", "absolute/.": content + "/.", "absolute//": content + "//"}[spelling]
 
 
 def pbytes(n, salt):
@@ -216,6 +242,12 @@ AIMED = [
     ({"meta-version"}, {"meta-version": "1"}), ({"meta-version", "comment"}, {"meta-version": "1", "comment": "explicit default"}),
     ({"align", "piece-length"}, {"piece-length": "16384", "payload": "tree"}),
     ({"announce", "web-seed", "http-seed"}, {"announce": [A_POOL[2], A_POOL[6], A_POOL[1]], "payload": "single"}),
+    # path spellings: the versions whose creators walk the directory themselves, with list flags that can swallow the content
+    ({"meta-version", "announce"}, {"meta-version": "3", "announce": [A_POOL[0], A_POOL[1]], "payload": "tree"}),
+    ({"meta-version", "web-seed"}, {"meta-version": "3", "payload": "tree"}),
+    ({"meta-version", "http-seed", "announce"}, {"meta-version": "2", "payload": "tree"}),
+    ({"meta-version", "web-seed", "out"}, {"meta-version": "2", "out": "dir", "payload": "tree"}),
+    ({"out", "meta-version"}, {"out": "dir", "meta-version": "3"}), ({"out", "comment"}, {"out": "dir"}),
 ]
 
 
@@ -394,6 +426,8 @@ def kw_spec(o, r, w, content):
             kwargs[opt] = True
         elif opt == "piece-length":
             kwargs["piece_length"] = int(o[opt]) if r.get("pl") == "int" else o[opt]
+        elif opt == "out" and r.get("out_via") == "write":
+            pass                    # given to write(outfile=...) below
         elif opt == "out":
             kwargs["outfile"] = out_value(o, w)[0]
         elif opt == "meta-version":
@@ -416,7 +450,10 @@ def kw_spec(o, r, w, content):
         kwargs["meta_version"] = int(ver) if mv == "int" else ver
     if r.get("progress") is not None:
         kwargs["progress"] = r["progress"]
-    return {"cls": cls, "kwargs": kwargs}
+    spec = {"cls": cls, "kwargs": kwargs}
+    if "out" in o and r.get("out_via") == "write":
+        spec["write"] = {"outfile": out_value(o, w)[0]}
+    return spec
 
 
 HASH_SEEDS = ["0", "1", "2", "12345", "random"]
@@ -511,6 +548,27 @@ def routes_for(ctx, o, idx):
                    "announce_as": "list"})
     elif thorough:
         rs.append({"route": "keyword", "cls": "class", "pathkw": "content", "mv": "omit", "pl": "str", "announce_as": "list"})
+    if "out" in o:
+        # the library also takes the output location at write time: write(outfile=...) must mean what outfile= in the constructor means
+        rs.append({"route": "keyword", "cls": ["auto", "class"][idx % 2], "pathkw": ["path", "content"][(idx // 2) % 2], "mv": "str",
+                   "pl": "str", "announce_as": "list", "out_via": "write"})
+    # the content path is spelled differently from route to route (trailing separator, relative to the working directory with '..'
+    # segments, './x', 'x/.', '//'): route 0 keeps the plain absolute path; a swallowed content is never spelled plainly; for the
+    # versions whose creators walk the directory themselves one more swallowed route spells it with a trailing separator
+    lopts = [x for x in LIST_OPTS if x in present]
+    if ver != "1" and lopts:
+        lopt = lopts[idx % len(lopts)]
+        rs.append({"route": "cli", "order": [x for x in perm() if x != lopt] + [lopt], "content_after": lopt, "sub": "create",
+                   "content_spelling": ["absolute/", "relative/"][idx % 2]})
+    nsw = 0
+    for k, r in enumerate(rs):
+        if k == 0 or "content_spelling" in r:
+            continue
+        if r["route"] == "cli" and r.get("content_after") is not None:
+            r["content_spelling"] = SWALLOW_SPELLINGS[(idx + nsw) % len(SWALLOW_SPELLINGS)]
+            nsw += 1
+        else:
+            r["content_spelling"] = CONTENT_SPELLINGS[(3 * idx + k) % len(CONTENT_SPELLINGS)]
     # every route runs in a fresh interpreter of its own: the seed of its string hashes (PYTHONHASHSEED) rotates over the routes of
     # a record, so that metafiles which must be identical are written by processes whose sets iterate in different orders
     for k, r in enumerate(rs):
@@ -534,6 +592,7 @@ def run_route(root, tag, o, r):
             cwd, content = content, "."
     if r.get("content_relative"):
         content = os.path.relpath(content, cwd)
+    content = spell_content(content, cwd, r.get("content_spelling"), o.get("payload") == "single")
     expected_rel = out_value(o, w)[1]
     mine = set()
     info = {}
@@ -812,6 +871,12 @@ def case_classes(o, r, res):
                "in-content": "out inside the content directory", "in-content-sub": "out inside a sub-directory of the content",
                "cwd-content": "out relative with cwd = content directory and content '.'"}[o.get("out")])
     ver = o.get("meta-version", "1")
+    spelled = r.get("content_spelling") or "absolute"
+    if o.get("out") == "cwd-content" and o.get("payload") != "single":
+        spelled = "'.' forms"
+    elif o.get("payload") == "single" and spelled not in ("absolute", "relative", "./relative"):
+        spelled = "absolute" if spelled.startswith("absolute") else "relative"
+    cl.append("content spelled " + spelled)
     cl.append(f"meta-version {ver}" + ("" if "meta-version" in o else " (default)"))
     if o.get("align"):
         cl.append("align with v1" if ver == "1" else "align with v2/hybrid")
@@ -826,6 +891,11 @@ def case_classes(o, r, res):
         if inf["swallowed_by"]:
             cl.append(f"content swallowed by {inf['swallowed_by']}")
             cl.append("swallowing flag last in argv" if inf["swallow_last"] else "swallowing flag followed by more flags")
+            if spelled.endswith("/"):
+                cl.append("swallowed content spelled with a trailing separator")
+                cl.append(f"swallowed content with a trailing separator, meta-version {ver}")
+            elif spelled != "absolute":
+                cl.append("swallowed content spelled relative or with '.' segments")
         cl.append("sub-command " + (r.get("sub") or "<implicit>"))
         sp = r.get("spelling") or {}
         if any(v.startswith("-") and not v.startswith("--") for v in sp.values()):
@@ -868,6 +938,10 @@ def case_classes(o, r, res):
         if isinstance(kw.get("piece_length"), int):
             cl.append("keyword piece_length int")
         cl.append("creator " + spec["cls"])
+        if "write" in spec:
+            cl.append("keyword outfile via write()")
+            if o.get("out") == "dir":
+                cl.append("keyword outfile via write(): directory form")
         if spec["cls"] == "TorrentAssembler" and kw.get("meta_version") == 3:
             cl.append("D21 class: meta_version=3 int keyword")
     return cl
@@ -893,7 +967,11 @@ REQUIRED = (
        "ini priority: cwd over home-config + home-torrentfile", "ini priority: home-torrentfile over home-config",
        "--config-path while other ini files exist", "ini writes the default meta-version = 1 explicitly",
        "find_config_file: presence combination", "out inside the content directory",
-       "out inside a sub-directory of the content", "out relative with cwd = content directory and content '.'"])
+       "out inside a sub-directory of the content", "out relative with cwd = content directory and content '.'",
+       "keyword outfile via write()", "keyword outfile via write(): directory form",
+       "swallowed content spelled with a trailing separator", "swallowed content spelled relative or with '.' segments",
+       "swallowed content with a trailing separator, meta-version 2", "swallowed content with a trailing separator, meta-version 3"]
+    + ["content spelled " + x for x in CONTENT_SPELLINGS])
 
 
 def require_classes(ctx, required, minimum=2):
